@@ -52,6 +52,24 @@ fn verifier_challenges<G: Group>(msg: &Msg<G>) -> Result<Option<Vec<Scalar>>, Ca
     }
 }
 
+/// challenges drawn for `msg` when it is verified as the SECOND member of a batch behind an honest
+/// single-commitment companion (None if the batch is refused before any challenge is drawn)
+fn verifier_challenges_in_batch<G: Group>(companion: &Msg<G>, msg: &Msg<G>) -> Result<Option<Vec<Scalar>>, Caught> {
+    let (Delivered::Ready(cst, cpr), Delivered::Ready(st, proof)) = (guarded(|| companion.open())?, guarded(|| msg.open())?) else {
+        return Ok(None);
+    };
+    tap::start();
+    let mut trs = vec![companion.ctx.transcript(), msg.ctx.transcript()];
+    let tid = trs[1].tap_id();
+    let r = guarded(|| G::verify(&mut trs, &[cst, st], &[cpr, proof], VerifyAction::VerifyOnly));
+    let events = tap::stop();
+    let _ = r?;
+    match TranscriptView::from_events(&events, tid) {
+        Ok(v) if !v.challenges.is_empty() => Ok(Some(v.challenges)),
+        _ => Ok(None),
+    }
+}
+
 fn prover_challenges<G: Group>(cfg: &Config, wit: &WitnessSpec, ctx: &Context, rng_seed: u64) -> Option<Vec<Scalar>> {
     let built = build::<G>(cfg, wit);
     let mut frng = FaultRng::new(RngMode::Healthy(rng_seed));
@@ -222,6 +240,62 @@ fn run<G: Group>(sc: &Scenario, st: &mut RunStats) -> Vec<Violation> {
             }
         }
     }
+    // batch context: the message is the second and (for m >= 2) strictly largest member behind an
+    // honest single-commitment companion; its own generators and bit length must still reach its
+    // challenges — or the batch must be refused before any challenge is drawn
+    if sc.cfg.m >= 2 {
+        let ccfg = Config { bits: sc.cfg.bits, m: 1, cap: 1, ext: sc.cfg.ext };
+        let cwit = WitnessSpec { values: vec![0], promises: vec![None], blind_seed: sc.fault_seed ^ 0xC04, seed_nonce: None };
+        let cctx = Context { label: 7, extra: None };
+        let cb = build::<G>(&ccfg, &cwit);
+        if let Ok(Ok(cp)) = prove_mode::<G>(&cctx, &cb.statement, &cb.witness, &RngMode::Healthy(sc.rng_seed ^ 2)).0 {
+            let cmsg = Msg::<G>::honest(&ccfg, &cwit, &cctx, &cb, &cp);
+            if let Ok(Some(bbase)) = verifier_challenges_in_batch(&cmsg, &msg) {
+                let mut bf: Vec<(Fault, String)> = vec![(Fault::GeneratorH(GenPart::Both), "H".into()), (Fault::GeneratorH(GenPart::PointOnly), "H (point)".into())];
+                for k in 0..sc.cfg.ext {
+                    bf.push((Fault::GeneratorG { k, part: GenPart::Both }, format!("G[{}]", k)));
+                }
+                for (bi, (f, name)) in bf.iter().enumerate() {
+                    if let Some(o) = sc.only {
+                        if o != 20_000 + bi {
+                            continue;
+                        }
+                    }
+                    let mut r = frng.split_idx("b", bi as u64);
+                    let Some(bad) = apply_fault(&msg, f, &mut r) else { continue };
+                    match verifier_challenges_in_batch(&cmsg, &bad) {
+                        Ok(None) => st.probe("batch_refused_before_challenges"),
+                        Err(c) => {
+                            out.push(Violation::new("verifier_panicked", "panic", format!("{:?}", c)));
+                            return out;
+                        },
+                        Ok(Some(got)) => {
+                            st.evals += 1;
+                            st.fault("verifier_batch_context_generator");
+                            for ord in 0..got.len().min(bbase.len()) {
+                                if got[ord] == bbase[ord] {
+                                    out.push(Violation::new(
+                                        "challenge_independent_of_preceding_datum",
+                                        format!("verifier-batch/{}", f.kind()),
+                                        format!(
+                                            "verifier, batch [honest single commitment, cfg {:?}], group {}: after changing {} in the second member's statement its challenge with ordinal {} is unchanged (and the batch was not refused)",
+                                            sc.cfg,
+                                            G::NAME,
+                                            name,
+                                            ord
+                                        ),
+                                    ));
+                                    return out;
+                                }
+                            }
+                        },
+                    }
+                    st.evals += 1;
+                    st.event(format!("batch-context perturb {}", name));
+                }
+            }
+        }
+    }
     // prover side: data that can be changed without touching anything else
     if let Some(pbase) = &pc {
         let mut variants: Vec<(String, Config, WitnessSpec, Context)> = Vec::new();
@@ -352,6 +426,11 @@ impl Check for C04 {
                 s.only = Some(10_000 + i);
                 v.push(s);
             }
+            for i in 0..16 {
+                let mut s = sc.clone();
+                s.only = Some(20_000 + i);
+                v.push(s);
+            }
         }
         if sc.group != "free" {
             let mut s = sc.clone();
@@ -365,7 +444,7 @@ impl Check for C04 {
         vec![
             "verifier_context_label", "verifier_context_extra", "verifier_generator_h", "verifier_generator_g", "verifier_bits",
             "verifier_replace_commitment", "verifier_promise", "verifier_swap_commitments", "verifier_replace_point",
-            "prover_side_perturbation",
+            "prover_side_perturbation", "batch_refused_before_challenges",
         ]
     }
 }
